@@ -250,6 +250,12 @@ func (l *queryLog) Add(params *AddParams) {
 	l.bufferLock.Lock()
 	defer l.bufferLock.Unlock()
 
+	// Set the time of the entry under the lock, so that the entries are put
+	// into the buffer, and so written to the file, in the order of their
+	// timestamps even when several requests are processed concurrently.  Both
+	// the binary search in the log files and the paging rely on that order.
+	entry.Time = time.Now()
+
 	l.buffer.Push(entry)
 
 	if !l.flushPending && fileIsEnabled && l.buffer.Len() >= memSize {
